@@ -370,7 +370,12 @@ def r7(ctx):
     ctx.floor("R18.7", 12, "4 rank arms x (shape, dims, element)")
 
 
+RULES["R18.1"] += " | entries-stay-in-place (who-may-permute): over every function of the property's modules, no Vec/slice operation that moves entries to other positions (reverse, swap, rotate, sort .., mem::swap of two entries) outside the table of sites confirmed on the pinned tree (common.PERMUTING_SITES)"
+
+
 def run(ctx):
+    from .common import no_permuting_ops
+    ctx.guard("R18.1", "entries-stay-in-place", no_permuting_ops, ctx, "R18.1", "random", {"src/random.rs"}, 3)
     r = ctx.guard("R18.1", "generator", r1_r2_r3, ctx)
     if r:
         ctx.guard("R18.4", "shuffle", r4_r5, ctx, *r)
